@@ -265,6 +265,16 @@ def oracle_prox(ctx, key, desc, kind, x, g, lo, up, y):
 
 
 # ----------------------------------------------------------------------------- CGLS
+def record_margin(ctx, name, a, b, tol):
+    """largest deviation/tolerance ratio among float-vs-exact comparisons that passed (evidence `margins`)"""
+    a = np.asarray(a, dtype=float).ravel(); b = np.asarray(b, dtype=float).ravel()
+    if a.shape == b.shape and a.size and np.all(np.isfinite(a)) and np.all(np.isfinite(b)):
+        ratio = float(np.max(np.abs(a - b) / (tol * (1.0 + np.maximum(np.abs(a), np.abs(b))))))
+        if ratio <= 1.0:
+            m = ctx.extra_cov.setdefault("margins", {}).setdefault(name, {"max_dev_over_tol": 0.0, "comparisons": 0})
+            m["max_dev_over_tol"] = max(m["max_dev_over_tol"], round(ratio, 6)); m["comparisons"] += 1
+
+
 def cg_threshold_close(gamma_k, gamma0, tol):
     thr = float(gamma0) * tol * tol
     g = float(gamma_k)
@@ -323,7 +333,9 @@ def compare_cg(ctx, key, desc, out, solve_impl, on_refusal=None, kappa=1.0):
         with quiet():
             xj, _ = solve_impl(j)
         # at the step where exact arithmetic terminates (gamma = 0) float CG has not converged to working precision yet
-        if not vclose(np.asarray(xj) / ds, np.asarray(trace[j]) / ds, max(1e-6, 1e-11 * desc.get("far_start", 1.0) * kappa) if (j == k and gammas[k] == 0) else itol):
+        jtol = max(1e-6, 1e-11 * desc.get("far_start", 1.0) * kappa) if (j == k and gammas[k] == 0) else itol
+        record_margin(ctx, f"{desc.get('solver', 'CG')}-iterate" + ("-at-exact-termination" if jtol != itol else ""), np.asarray(xj) / ds, np.asarray(trace[j]) / ds, jtol)
+        if not vclose(np.asarray(xj) / ds, np.asarray(trace[j]) / ds, jtol):
             ctx.disagree(key + ":iterate", {**desc, "j": j}, trace[j], np.asarray(xj).tolist(), f"iterate {j} differs")
             break
     return True, np.asarray(xi, dtype=float), ki, (k, flag, x, gammas)
@@ -691,7 +703,7 @@ def check_fista(ctx, rs, sc, FISTA, ProjectNonnegative, ProjectBox, ProximalL1):
             if km != ki:
                 ctx.disagree(key + ":iterations", desc, km, int(ki), "iteration count differs")
                 oracle_fista_step(ctx, key + ":iterations", desc, A, b, x0, t, kind, par, adaptive, maxit, abstol, FISTA, op, proxf)
-            elif not vclose(xi / fs, np.asarray(xm) / fs, TOL):
+            elif (record_margin(ctx, "FISTA-iterate", xi / fs, np.asarray(xm) / fs, TOL) or True) and not vclose(xi / fs, np.asarray(xm) / fs, TOL):
                 ctx.disagree(key + ":iterate", desc, xm, xi.tolist(), "returned point differs")
                 oracle_fista_step(ctx, key + ":iterate", desc, A, b, x0, t, kind, par, adaptive, maxit, abstol, FISTA, op, proxf)
             # oracle (every case): a return before maxit means |x_new - y| <= abstol, hence (the prox-gradient map being
@@ -852,6 +864,7 @@ def check_lm(ctx, rs, sc, LM):
             for j in range(im + 1):
                 with quiet():
                     xj, _ = solve(j)
+                record_margin(ctx, "LM-iterate", xj, trace[j], 1e-8)
                 if not vclose(xj, trace[j], 1e-8):
                     bad = ("iterate", trace[j], xj.tolist()); break
         if bad:
